@@ -5,6 +5,10 @@ HERE = os.path.dirname(os.path.dirname(os.path.abspath(__file__)))
 sys.path.insert(0, HERE)
 from tools.manifest_table import CHECKS, PENDING, NOT_APPLICABLE
 
+WIDENED = (" The enumerated scope was widened after three rounds of independently seeded property-breaking changes (integer / "
+           "boolean storage dtypes, numpy-scalar and list/tuple argument forms, order >= 4 and empty operands, C-ordered and grown "
+           "buffers, repeated calls on the same object); the exact bounds of the committed version are the module's BOUNDS "
+           "string, echoed in the evidence file together with the measured state / transition counts.")
 checks = []
 for pid, (text, note, tech, ref) in sorted(CHECKS.items()):
     checks.append({
@@ -14,7 +18,7 @@ for pid, (text, note, tech, ref) in sorted(CHECKS.items()):
         "evidence_file": f"/verif/evidence/{pid}.json",
         "replay_cmd_template": f"./check {pid} --replay {{path}}",
         "engine": "mc",
-        "level_claimed": {"category": "model_checking", "text": text, "design_ref": ref},
+        "level_claimed": {"category": "model_checking", "text": text + WIDENED, "design_ref": ref},
         "level_note": note,
         "technique": tech,
     })
